@@ -254,6 +254,12 @@ class _ReusablePoolExecutor(ProcessPoolExecutor):
             ):
                 time.sleep(1e-3)
 
+            if self._flags.broken:
+                # The executor manager thread is terminating the executor
+                # (workers killed, queues closed): do not spawn workers
+                # that nobody would manage.
+                return
+
             self._adjust_process_count()
             # Wake up the executor manager thread so that it also watches the
             # sentinels of the workers that were just spawned: a worker dying
